@@ -412,16 +412,22 @@ def coordinates(check, prog):
                     t[2][1][0] == 'const':
                 name = t[2][1][1]
                 if name in ('theta', 'phi'):
-                    return kind.startswith('spherical')
+                    return kind.startswith('spherical') or kind == 'cartesian+angles'
                 if name == 'r':
-                    return kind == 'spherical-r'
+                    return kind in ('spherical-r', 'cartesian+angles')
+                if name in ('x', 'y', 'z'):
+                    return kind.startswith('cartesian')
                 if name == 'flat':
                     return False
                 if name == 'point':
                     return kind == 'cartesian-points'
             return None
         return decide
-    for kind in ('cartesian', 'cartesian-points', 'spherical-r', 'spherical'):
+    # 'cartesian+angles': a grid that also carries r, theta, phi (what
+    # calc_scat_matrix returns: the angles it was evaluated at, relative to
+    # *that* scatterer) -- its pixel positions are what locates the points
+    for kind in ('cartesian', 'cartesian-points', 'spherical-r', 'spherical',
+                 'cartesian+angles'):
         it = Interp(prog, max_depth=2, decide=decide_for(kind), opaque=[
             'holopy.core.math.find_transformation_function'])
         res = it.analyze(q)
@@ -433,7 +439,7 @@ def coordinates(check, prog):
             continue
         got = v[2][0][1]
         det, org, k = sym('detector'), sym('origin'), sym('wavevec')
-        if kind == 'cartesian':
+        if kind in ('cartesian', 'cartesian+angles'):
             env = {'k': k, 'o': org,
                    'X': intern(('attr', ('attr', ('call', ('attr', det, 'stack'), (), (
                        ('flat', ('tuple', (('const', 'x'), ('const', 'y'), ('const', 'z')))),)),
